@@ -182,7 +182,8 @@ Print Assumptions C15_group_segments.
 
 (* 6. the provided sorts (sort.Sort by contract: a permutation in which no later element is Less
       than an earlier one).  Both Less functions are strict weak orders, so the contract
-      applies; a Less-sorted list is ordered by timestamp, resp. by (index, timestamp); and both
+      applies; a Less-sorted list is ordered by timestamp, resp. by (index, timestamp, version) (the Less of /repo after
+      fix 47692a5); and both
       sorted forms satisfy the hypothesis of the composition theorem. *)
 Theorem C15_less_ts_strict_weak :
   (forall a, less_ts a a = false) /\
@@ -206,7 +207,8 @@ Print Assumptions C15_sorted_by_timestamp.
 
 Theorem C15_sorted_by_index : forall l l',
   Permutation l l' -> sorted_for less_index l' ->
-  StronglySorted (fun a b => u_index a < u_index b \/ (u_index a = u_index b /\ u_ts a <= u_ts b)) l' /\
+  StronglySorted (fun a b => u_index a < u_index b \/ (u_index a = u_index b /\
+      (u_ts a < u_ts b \/ (u_ts a = u_ts b /\ u_ver a <= u_ver b)))) l' /\
   per_index_sorted l' = true.
 Proof. intros l l' _ H. split; [apply sorted_index_lex|apply sorted_index_per_index_sorted]; exact H. Qed.
 Print Assumptions C15_sorted_by_index.
